@@ -90,6 +90,12 @@ def mul(a, b):
     if not is_sym(b):
         if b == 0: return 0
         if b == 1: return a
+        if a.op == "*" and not is_sym(a.args[1]):
+            return mul(a.args[0], a.args[1] * b)
+        if a.op == "+" :
+            return add(mul(a.args[0], b), mul(a.args[1], b))
+        if a.op == "-":
+            return sub(mul(a.args[0], b), mul(a.args[1], b))
         lo, hi = bounds(a)
         if b > 0:
             nlo = None if lo is None else lo * b; nhi = None if hi is None else hi * b
@@ -104,11 +110,48 @@ def mul(a, b):
         lo, hi = min(c), max(c)
     return _mk("*", (a, b), "I", lo, hi)
 
+def _linear(t, k=1, acc=None):
+    """flatten +,-,*const into {atom id: [coeff, atom]} plus constant under key None"""
+    if acc is None: acc = {None: [0, None]}
+    if not is_sym(t):
+        acc[None][0] += k * int(t); return acc
+    if t.op == "+":
+        _linear(t.args[0], k, acc); _linear(t.args[1], k, acc)
+    elif t.op == "-":
+        _linear(t.args[0], k, acc); _linear(t.args[1], -k, acc)
+    elif t.op == "*" and not is_sym(t.args[1]):
+        _linear(t.args[0], k * t.args[1], acc)
+    else:
+        e = acc.get(t.id)
+        if e is None: acc[t.id] = [k, t]
+        else: e[0] += k
+    return acc
+
+def _split_multiples(a, c):
+    """a = rest + c * quot  with quot built from the addends whose coefficient is a multiple of c"""
+    if not is_sym(a) or a.op not in ("+", "-", "*"): return None
+    lin = _linear(a)
+    quot = 0; rest = 0; changed = False
+    for key, (k, atom) in sorted(lin.items(), key=lambda kv: (kv[0] is None, kv[0] or 0)):
+        if key is None: continue
+        if k == 0: continue
+        if k % c == 0:
+            quot = add(quot, mul(atom, k // c)); changed = True
+        else:
+            rest = add(rest, mul(atom, k))
+    if not changed: return None
+    k0 = lin[None][0]
+    rest = add(rest, k0)
+    return rest, quot
+
 def fdiv(a, c):
     """floor division by a positive python constant"""
     assert not is_sym(c) and c > 0
     if not is_sym(a): return a // c
     if c == 1: return a
+    sp = _split_multiples(a, c)
+    if sp is not None:
+        return add(fdiv(sp[0], c), sp[1])
     lo, hi = bounds(a)
     return _mk("div", (a, c), "I", None if lo is None else lo // c, None if hi is None else hi // c)
 
@@ -116,6 +159,9 @@ def fmod(a, c):
     assert not is_sym(c) and c > 0
     if not is_sym(a): return a % c
     if c == 1: return 0
+    sp = _split_multiples(a, c)
+    if sp is not None:
+        return fmod(sp[0], c)
     lo, hi = bounds(a)
     if lo is not None and hi is not None and lo >= 0 and hi < c: return a
     if lo is not None and hi is not None and lo // c == hi // c:
@@ -455,3 +501,106 @@ class Solver:
     def drop_extra(self):
         if getattr(self, "last_extra", False):
             self.pop(); self.last_extra = False
+
+# ------------------------------------------------------------------ finite-domain (bit-vector) back end
+def _all_terms(ts):
+    seen = {}; stack = list(ts)
+    while stack:
+        x = stack.pop()
+        if not isinstance(x, T) or x.id in seen: continue
+        seen[x.id] = x
+        stack.extend(x.args)
+    return seen
+
+def bv_width_for(formulas):
+    """smallest signed width that holds every Int sub-term's interval, or None when some sub-term is unbounded"""
+    mx = 1
+    for x in _all_terms(formulas).values():
+        if x.sort != "I": continue
+        if x.op.startswith("uf:"): return None
+        if x.lo is None or x.hi is None: return None
+        mx = max(mx, abs(x.lo), abs(x.hi))
+        for a in x.args:
+            if not isinstance(a, T) and not isinstance(a, bool): mx = max(mx, abs(a))
+    return mx.bit_length() + 3
+
+def to_bv_script(formulas, width):
+    """SMT-LIB2 script (QF_BV) equisatisfiable with the conjunction of `formulas` when every Int sub-term fits
+    `width` bits (guaranteed by bv_width_for)."""
+    W = width
+    def lit(v):
+        return "(_ bv%d %d)" % (v % (1 << W), W)
+    memo = {}
+    lines = ["(set-logic QF_BV)"]
+    terms = _all_terms(formulas)
+    for x in sorted(terms.values(), key=lambda t: t.id):
+        if x.op == "var":
+            nm = x.name.replace("!", "_")
+            if x.sort == "I":
+                lines.append("(declare-const %s (_ BitVec %d))" % (nm, W))
+                lines.append("(assert (bvsle %s %s))" % (lit(x.lo), nm)); lines.append("(assert (bvsle %s %s))" % (nm, lit(x.hi)))
+            else:
+                lines.append("(declare-const %s Bool)" % nm)
+    def rec(x):
+        if isinstance(x, bool): return "true" if x else "false"
+        if isinstance(x, int): return lit(x)
+        r = memo.get(x.id)
+        if r is not None: return r
+        o = x.op
+        if o == "var": r = x.name.replace("!", "_")
+        else:
+            a = [rec(y) for y in x.args]
+            if o == "+": r = "(bvadd %s %s)" % (a[0], a[1])
+            elif o == "-": r = "(bvsub %s %s)" % (a[0], a[1])
+            elif o == "*": r = "(bvmul %s %s)" % (a[0], a[1])
+            elif o in ("div", "mod"):
+                c = x.args[1]
+                q = "(bvsdiv %s %s)" % (a[0], a[1]); rm = "(bvsrem %s %s)" % (a[0], a[1])
+                fl = "(ite (and (bvslt %s %s) (not (= %s %s))) (bvsub %s %s) %s)" % (a[0], lit(0), rm, lit(0), q, lit(1), q)
+                if o == "div": r = fl
+                else: r = "(ite (bvslt %s %s) (bvadd %s %s) %s)" % (rm, lit(0), rm, a[1], rm)
+            elif o == "ite": r = "(ite %s %s %s)" % tuple(a)
+            elif o == "<": r = "(bvslt %s %s)" % (a[0], a[1])
+            elif o == "<=": r = "(bvsle %s %s)" % (a[0], a[1])
+            elif o == "=": r = "(= %s %s)" % (a[0], a[1])
+            elif o in ("and", "or", "not"): r = "(%s %s)" % (o, " ".join(a))
+            else: raise ValueError("bv: op " + o)
+        if len(r) > 60:
+            nm = "b_%d" % x.id
+            lines.append("(define-fun %s () %s %s)" % (nm, "Bool" if x.sort == "B" else "(_ BitVec %d)" % W, r))
+            r = nm
+        memo[x.id] = r
+        return r
+    for f in formulas:
+        if f is True: continue
+        lines.append("(assert %s)" % rec(f))
+    lines.append("(check-sat)")
+    return "\n".join(lines) + "\n"
+
+def solve_bv(formulas, timeout_s=120, want_model=None, solver="z3"):
+    """returns ('sat'|'unsat'|'unknown'|'na', model)"""
+    W = bv_width_for(formulas)
+    if W is None or W > 40: return "na", None
+    script = to_bv_script(formulas, W)
+    if want_model:
+        script = "(set-option :produce-models true)\n" + script + "(get-value (%s))\n" % " ".join(n.replace("!", "_") for n in want_model)
+    cmd = ["z3-new", "-in", "-T:%d" % timeout_s] if solver == "z3" else ["cvc5", "--lang=smt2", "--tlimit=%d" % (timeout_s * 1000), "--produce-models"]
+    try:
+        r = subprocess.run(cmd, input=script, capture_output=True, text=True, timeout=timeout_s + 10)
+    except subprocess.TimeoutExpired:
+        return "unknown", None
+    out = r.stdout.strip().split("\n")
+    ans = out[0].strip() if out else "unknown"
+    if ans not in ("sat", "unsat"): return "unknown", None
+    model = None
+    if ans == "sat" and want_model:
+        model = {}
+        txt = "\n".join(out[1:])
+        for m in re.finditer(r'\(\s*([^\s()]+)\s+(#x[0-9a-fA-F]+|#b[01]+|true|false)\s*\)', txt):
+            v = m.group(2)
+            if v in ("true", "false"): model[m.group(1)] = (v == "true")
+            else:
+                n = int(v[2:], 16 if v[1] == "x" else 2)
+                if n >= 1 << (W - 1): n -= 1 << W
+                model[m.group(1)] = n
+    return ans, model
